@@ -4289,6 +4289,11 @@ pub mod verif {
 		return CanonicalizeContext::new().canonicalize_mrows(mathml);
 	}
 
+	/// Runs only the validation (`assure_mathml`).
+	pub fn assure(mathml: Element) -> Result<()> {
+		return CanonicalizeContext::assure_mathml(mathml);
+	}
+
 	/// Runs validation and clean-up (`assure_mathml`, `clean_mathml`, `assure_nary_tag_has_one_child`) without the mrow parser.
 	pub fn clean_only(mathml: Element) -> Result<Element> {
 		let context = CanonicalizeContext::new();
